@@ -253,6 +253,7 @@ def run_part(prop, part, tier, replay=None, seed=0, known_file=None, binary=None
     results, herr = list(pre_results), []
     wall_cap = part.get("wall_cap", {}).get(tier, 3600 if tier == "quick" else 6 * 3600)
     t0 = time.time()
+    stalled = watch_for_stalls(procs, wall_cap, t0) if mode == "plain" else {}
     for p, outp, logf in procs:
         try:
             rc = p.wait(timeout=max(1, wall_cap - (time.time() - t0)))
@@ -262,6 +263,15 @@ def run_part(prop, part, tier, replay=None, seed=0, known_file=None, binary=None
             herr.append("%s shard killed by the wall-clock watchdog (%ds)" % (test, wall_cap))
         logf.close()
         txt = open(outp + ".log").read()
+        if p.pid in stalled:
+            # the execution marked in the side file never came to rest and the process went idle (no CPU time
+            # used, no further execution started, for STALL_S seconds): the goroutine dump says why
+            why = classify_stall(txt)
+            if why:
+                results.append(crash_result(prop, test, outp, why, txt, replay, kind="stall"))
+            else:
+                herr.append("%s shard stalled (idle for %ds inside one execution) and the goroutine dump shows no SDK goroutine waiting for a lock: %s" % (test, STALL_S, txt[-3000:]))
+            continue
         if replay:
             sys.stdout.write(txt)
         if mode == "race":
@@ -276,6 +286,66 @@ def run_part(prop, part, tier, replay=None, seed=0, known_file=None, binary=None
             else:
                 herr.append("%s shard produced no result (exit %s): %s" % (test, rc, txt[-3000:]))
     return results, herr
+
+
+STALL_S = int(os.environ.get("VERIF_STALL_S", "90"))
+
+
+def cpu_ticks(pid):
+    try:
+        f = open("/proc/%d/stat" % pid).read().rsplit(")", 1)[1].split()
+        return int(f[11]) + int(f[12])
+    except Exception:
+        return None
+
+
+def watch_for_stalls(procs, wall_cap, t0):
+    """Plain-build parts run executions inside synctest bubbles.  A goroutine of the code under test that waits
+    for a sync.Mutex which another goroutine holds across a blocked operation is not "durably blocked": the
+    bubble's clock cannot advance, the execution never ends and the process goes idle.  Such a worker is sent
+    SIGQUIT (the Go runtime then prints every goroutine's stack) and reported; returns {pid: True}."""
+    stalled = {}
+    last = {}
+    while time.time() - t0 < wall_cap:
+        alive = [(p, outp) for p, outp, _ in procs if p.poll() is None and p.pid not in stalled]
+        if not alive:
+            break
+        for p, outp in alive:
+            try:
+                m = os.path.getmtime(outp + ".current")
+            except OSError:
+                m = 0
+            key = (cpu_ticks(p.pid), m)
+            prev = last.get(p.pid)
+            if prev is None or prev[0] != key:
+                last[p.pid] = (key, time.time())
+            elif time.time() - prev[1] > STALL_S:
+                stalled[p.pid] = True
+                try:
+                    p.send_signal(3)  # SIGQUIT: goroutine dump, then exit
+                except Exception:
+                    pass
+        time.sleep(2)
+    return stalled
+
+
+def classify_stall(txt):
+    """In the goroutine dump of a stalled worker: the first goroutine that waits for a sync.Mutex / RWMutex on
+    behalf of SDK code (first frame after sync/runtime is not harness code).  None if there is none."""
+    for block in txt.split("\n\n"):
+        if "sync.(*Mutex).Lock" not in block and "sync.(*RWMutex)" not in block and "sync.runtime_SemacquireMutex" not in block and "sync.runtime_SemacquireRWMutex" not in block:
+            continue
+        lines = block.splitlines()
+        for i, l in enumerate(lines):
+            m = l.strip()
+            if m.startswith("/") and ".go:" in m:
+                if "/src/runtime/" in m or "/src/sync/" in m or "/src/internal/" in m:
+                    continue
+                if any(h in m for h in HARNESS_MARKS):
+                    break
+                fn = lines[i - 1].strip().rsplit("(", 1)[0] if i > 0 else ""
+                return "a goroutine of the code under test waits for a lock that is held across an operation that never completes (%s at %s); the execution cannot come to rest" % (fn.split("/")[-1], m.split(" ")[0].split("/")[-1])
+    return None
 
 
 HARNESS_MARKS = ("zz_verif_", "/internal/vsched/", "/internal/verifx/", "/verif/harness/", "/verif/engine/")
@@ -373,8 +443,8 @@ def classify_crash(txt):
     return None
 
 
-def crash_result(prop, test, outp, crash, txt, replay):
-    sig = "process-crash: " + crash[:160]
+def crash_result(prop, test, outp, crash, txt, replay, kind="process-crash"):
+    sig = kind + ": " + crash[:200]
     rp = replay
     scen = test
     cur = outp + ".current"
@@ -397,7 +467,7 @@ def crash_result(prop, test, outp, crash, txt, replay):
             if line.startswith("known:") and ("property=%s " % prop) in line and ("sig=" + sig) in line:
                 known = True
     return {"scenarios": [{"name": scen, "execs": 1, "steps": 1, "outcomes": {"VIOLATION: " + sig: 1}, "complete": False}],
-            "violations": [{"scenario": scen, "sig": sig, "msg": "the code under test crashed the worker process: " + crash + "\n" + txt[-1500:], "known": known, "replay": rp}]}
+            "violations": [{"scenario": scen, "sig": sig, "msg": ("the code under test crashed the worker process: " if kind == "process-crash" else "the execution never came to rest: ") + crash + "\n" + txt[-1500:], "known": known, "replay": rp}]}
 
 
 def merge(prop, tier, seed, level, parts_results, herr, wall):
